@@ -80,6 +80,9 @@ fn recolor_moved(t: &mut Tape, input: &[u8]) -> Vec<u8> {
 fn decorated_text(t: &mut Tape) -> Vec<u8> {
     let o = text::TextOpts { allow_markerlike: false, allow_long: false, ..text::TextOpts::all() };
     let n = t.range(2, 14);
+    // output of a tool run on a file with CRLF line ends (`grep --color`, `git grep --color`):
+    // the CR comes before the closing reset when the match extends to the end of the line
+    let crlf = t.chance(1, 3);
     let mut out = String::new();
     for _ in 0..n {
         let k = t.range(1, 12);
@@ -110,6 +113,12 @@ fn decorated_text(t: &mut Tape) -> Vec<u8> {
                     let inner = if t.coin() { format!("\x1b[01;34m{}{}", tok, reset) } else { tok.clone() };
                     line.push_str(&format!("\x1b]8;;{}{}{}\x1b]8;;{}", url, st, inner, st));
                 }
+            }
+        }
+        if crlf {
+            match ["\x1b[m", "\x1b[0m"].iter().find(|r| line.ends_with(**r)) {
+                Some(r) => line.insert(line.len() - r.len(), '\r'),
+                None => line.push('\r'),
             }
         }
         out.push_str(&line);
